@@ -448,7 +448,14 @@ class Component(CaselessDict):
                 else:
                     stack[-1].add_component(component)
                 if vals.upper() == 'VTIMEZONE' and isinstance(component, Timezone) and 'TZID' in component:
-                    tzp.cache_timezone_component(component)
+                    try:
+                        tzp.cache_timezone_component(component)
+                    except ValueError:
+                        raise
+                    except Exception as e:
+                        # missing or repeated DTSTART/TZOFFSETFROM/TZOFFSETTO, a DATE
+                        # as DTSTART, foreign subcomponents, ...
+                        raise ValueError(f"Invalid VTIMEZONE {component.get('TZID')}: {e!r}") from e
             # we are adding properties to the current top of the stack
             else:
                 factory = types_factory.for_property(name)
